@@ -53,6 +53,10 @@ let run_case op t =
         (res_s (fun c -> join [ "ok"; str_of_z c; str_of_z c ]) (ct_popcount w x),
          let c = rt_popcount w x in join [ "ok"; str_of_z c; str_of_z c ])
       else (res_s okz (ct_popcount w x), okz (rt_popcount w x))
+  | "all16" ->
+      let v = next_z t in let w = z_of_int 16 in
+      (join [ "ok"; res_s str_of_z (ct_popcount w v); res_s str_of_z (ct_byteswap w v); res_s str_of_z (ct_byteswap w v) ],
+       join [ "ok"; str_of_z (rt_popcount w v); str_of_z (rt_byteswap w v); str_of_z (rt_byteswap w v) ])
   | "byteswap" | "byteswap_fb" ->
       let w = next_z t in let _ = next_int t in let x = next_z t in
       (res_s okz (ct_byteswap w x), okz (rt_byteswap w x))
